@@ -9,6 +9,7 @@ import (
 	"fmt"
 	"io"
 	"math/rand"
+	"net"
 	"net/http"
 	"net/http/httptest"
 	"strings"
@@ -58,7 +59,7 @@ type scriptedServers struct {
 
 const c18Cap = 60
 
-func (s *scriptedServers) handler(self, other func() string) http.HandlerFunc {
+func (s *scriptedServers) handler(self, other func() string, acceptor *spnego.SPNEGO) http.HandlerFunc {
 	return func(w http.ResponseWriter, r *http.Request) {
 		// always drain the request body before answering (assumption of the check, stated in the evidence)
 		body, _ := io.ReadAll(r.Body)
@@ -79,7 +80,7 @@ func (s *scriptedServers) handler(self, other func() string) http.HandlerFunc {
 			if tb, err := base64.StdEncoding.DecodeString(strings.TrimPrefix(h, "Negotiate ")); err == nil {
 				var st spnego.SPNEGOToken
 				if st.Unmarshal(tb) == nil {
-					ok, ctx, _ := s.acceptor.AcceptSecContext(&st)
+					ok, ctx, _ := acceptor.AcceptSecContext(&st)
 					if ok && ctx != nil {
 						if id, isC := ctx.Value("github.com/jcmturner/gokrb5/v8/ctxCredentials").(*credentials.Credentials); isC {
 							rec.Accepted = id.UserName() == s.cname && id.Domain() == s.crealm
@@ -160,7 +161,7 @@ func cmdC18(args []string) error {
 			return err
 		}
 		// the service ticket is sealed with a key of etype et
-		for _, spn := range []string{"HTTP/127.0.0.1", "HTTP/explicit.c18.test"} {
+		for _, spn := range []string{"HTTP/127.0.0.1", "HTTP/127.0.0.2", "HTTP/explicit.c18.test"} {
 			if _, err := k.addPrincipal(realm, spn, "svc-"+spn, []int32{et}); err != nil {
 				return err
 			}
@@ -176,7 +177,7 @@ func cmdC18(args []string) error {
 			return err
 		}
 		kt := keytab.New()
-		for _, spn := range []string{"HTTP/127.0.0.1", "HTTP/explicit.c18.test"} {
+		for _, spn := range []string{"HTTP/127.0.0.1", "HTTP/127.0.0.2", "HTTP/explicit.c18.test"} {
 			if err := kt.AddEntry(spn, realm, "svc-"+spn, time.Now(), 1, et); err != nil {
 				return err
 			}
@@ -211,19 +212,30 @@ func cmdC18(args []string) error {
 func runC18(tw *traceWriter, cl *client.Client, kt *keytab.Keytab, realm string, sc c18Script, method string, blen int, spnMode string, et int32, r *rand.Rand) error {
 	body := rbytes(r, blen)
 	s := &scriptedServers{script: sc.Script, tail: sc.Tail, bodyLen: blen, bodySum: sha256.Sum256(body), cname: "alice", crealm: realm}
+	// the two hosts are different hosts with different service principals and keys (127.0.0.1 / 127.0.0.2): with a URL-derived SPN
+	// the intended principal is that of the host the request goes to, and each host's acceptor holds only its own key; an
+	// explicit SPN is the intended principal wherever the request goes
 	spn := ""
-	ktPrinc := "HTTP/127.0.0.1"
+	princA, princB := "HTTP/127.0.0.1", "HTTP/127.0.0.2"
 	if spnMode == "explicit" {
 		spn = "HTTP/explicit.c18.test"
-		ktPrinc = spn
+		princA, princB = spn, spn
 	}
-	s.acceptor = spnego.SPNEGOService(kt, service.KeytabPrincipal(ktPrinc), service.DecodePAC(false))
+	accA := spnego.SPNEGOService(kt, service.KeytabPrincipal(princA), service.DecodePAC(false))
+	accB := spnego.SPNEGOService(kt, service.KeytabPrincipal(princB), service.DecodePAC(false))
 	s.a = httptest.NewServer(nil)
-	s.b = httptest.NewServer(nil)
+	lb, err := net.Listen("tcp", "127.0.0.2:0")
+	if err != nil {
+		return fmt.Errorf("second loopback host: %v", err)
+	}
+	s.b = httptest.NewUnstartedServer(nil)
+	s.b.Listener.Close()
+	s.b.Listener = lb
+	s.b.Start()
 	defer s.a.Close()
 	defer s.b.Close()
-	s.a.Config.Handler = s.handler(func() string { return s.a.URL }, func() string { return s.b.URL })
-	s.b.Config.Handler = s.handler(func() string { return s.b.URL }, func() string { return s.a.URL })
+	s.a.Config.Handler = s.handler(func() string { return s.a.URL }, func() string { return s.b.URL }, accA)
+	s.b.Config.Handler = s.handler(func() string { return s.b.URL }, func() string { return s.a.URL }, accB)
 	hc := spnego.NewClient(cl, &http.Client{Timeout: 20 * time.Second}, spn)
 	var rd io.Reader
 	if method == "POST" {
